@@ -583,6 +583,7 @@ def is_short_string_literals(spelling):
 
 _nl_envs = {}
 NEWLINE_SEQUENCES = ("\n", "\r\n", "\r")
+SURROGATE_ALPHABET = ["\\ud83d", "\\ude00", "\\ud800", "\\udfff", "a", "\\U0001f600"]  # high, low, lone high, lone low, plain, astral escape
 REDUCED_STR_ALPHABET = ["a", "\\", "'", '"', "n", "r", "x", "0", "1", "\n"]  # for the non-default newline sequences
 
 
@@ -640,8 +641,10 @@ def bounded_unescape(shard):
         t0 = time.time()
         maxlen = 3 if tier == "quick" else 4
         n, acc, seen, out = 0, 0, set(), []
-        for seq in NEWLINE_SEQUENCES:
-            for k, sp in enumerate(string_spellings(maxlen, None if seq == "\n" else REDUCED_STR_ALPHABET)):
+        passes = [(seq, None if seq == "\n" else REDUCED_STR_ALPHABET, maxlen) for seq in NEWLINE_SEQUENCES]
+        passes.append(("\n", SURROGATE_ALPHABET, maxlen))  # lone, paired and reversed surrogate escapes (each escape one symbol)
+        for seq, alphabet, mx in passes:
+            for k, sp in enumerate(string_spellings(mx, alphabet)):
                 if k % STR_SHARDS != shard:
                     continue
                 n += 1
@@ -873,8 +876,19 @@ def replay_num_value(w):
 # ---- string branch ------------------------------------------------------------------------------
 
 NORMF = z3.Function("Lexer._normalize_newlines", S_, S_, S_)      # (newline_sequence, text) -> text with its line breaks replaced
-ENC = z3.Function("str.encode(ascii,backslashreplace)", S_, _Obj)
-DEC = z3.Function("bytes.decode(unicode-escape)", _Obj, S_)
+
+
+def enc_fn(args):
+    """dependency: str.encode(*args) as an uninterpreted function per codec / error handler"""
+    return z3.Function("str.encode" + repr(tuple(args)), S_, _Obj)
+
+
+def dec_fn(args):
+    return z3.Function("bytes.decode" + repr(tuple(args)), _Obj, S_)
+
+
+ENC = enc_fn(("ascii", "backslashreplace"))
+DEC = dec_fn(("unicode-escape",))
 PYSTR = z3.Function("python_value_of_string_literal", S_, S_)     # the value Python assigns to the quoted spelling
 
 
@@ -914,18 +928,21 @@ class StrValue(NumValue):
         I.specs["Lexer._normalize_newlines"] = normalize
 
         def str_encode(I_, st, args, kwargs, node):
-            if list(args[1:]) != ["ascii", "backslashreplace"] or kwargs:
-                raise Unsupported("str.encode with other arguments than ('ascii', 'backslashreplace')", node)
-            return [(st, Sym(ENC(to_term(args[0], "str")), "obj", tags={"encoded"}))]
+            # every codec / error handler is its own uninterpreted function: only the documented pair (ascii+backslashreplace, then
+            # unicode-escape) is tied to Python's value by the dependency contract, so any further re-coding of the value must be
+            # justified by the proof - it is not, and the obligation is refuted
+            if kwargs or not all(isinstance(a, str) for a in args[1:]):
+                raise Unsupported("str.encode with keyword / symbolic codec arguments", node)
+            return [(st, Sym(enc_fn(args[1:])(to_term(args[0], "str")), "obj", tags={"encoded"}))]
 
         I.specs["str.encode"] = str_encode
 
         def method_obj(I_, st, args, kwargs, node):
             o, name = args[0], args[1]
             if name == "decode" and "encoded" in o.tags:
-                if list(args[2:]) != ["unicode-escape"]:
-                    raise Unsupported("bytes.decode with another codec", node)
-                return [(st, Sym(DEC(o.t), "str"))]
+                if kwargs or not all(isinstance(a, str) for a in args[2:]):
+                    raise Unsupported("bytes.decode with keyword / symbolic codec arguments", node)
+                return [(st, Sym(dec_fn(args[2:])(o.t), "str"))]
             return None
 
         I.specs["method_obj"] = method_obj
@@ -977,7 +994,7 @@ class StrValue(NumValue):
 def replay_str_value(w):
     """native: the real Lexer.wrap on one string token under each newline_sequence, against Python's value of the spelling"""
     cands = [w["value_str"]] if isinstance(w.get("value_str"), str) else []
-    cands += ["'a\\nb'", '"\\r"', "'\\x0a\\x0d'", "'\\012'", "'ab'", '"q\\tq"', "'\\\\n'"]
+    cands += ["'a\\nb'", '"\\r"', "'\\x0a\\x0d'", "'\\012'", "'ab'", '"q\\tq"', "'\\\\n'", "'\\ud83d\\ude00'", "'\\ude00\\ud83d'", "'\\ud800'", "'\\U0001f600'"]
     for seq in NEWLINE_SEQUENCES:
         lx = jinja2.Environment(newline_sequence=seq).lexer
         for s in cands:
@@ -1264,6 +1281,7 @@ def bounded_tasks():
         t = FnTask(PROP, f"C14.bounded.unescape[{k}]", bounded_unescape(k), kind="bounded", replay_fn=replay_string)
         t.bound_text = (f"every body of length <= 4 (quick tier: <= 3) over {{a, é, U+1F600, \\, ', \", n, x, u, 0, 1, newline}} in both quote styles "
                         f"(shard {k} of {STR_SHARDS}) that Python accepts as short string literal(s): real Environment render vs ast value; "
+                        "plus every sequence of <= 4 (quick 3) symbols over {\\ud83d, \\ude00, \\ud800, \\udfff, a, \\U0001f600} (surrogate escapes lone / paired / reversed); "
                         "repeated under newline_sequence '\\r\\n' and '\\r' over the reduced alphabet {{a, \\, ', \", n, r, x, 0, 1, newline}}")
         t.finding_key = numbers_key
         ts.append(t)
